@@ -1,6 +1,7 @@
 import QiVerif.Driver.Util
 import QiVerif.Driver.C01
 import QiVerif.Driver.C20
+import QiVerif.Driver.C19
 open QiVerif.Driver
 
 /-- parameters handed over by ./check from the regenerated constants -/
@@ -19,6 +20,7 @@ def dispatch (p : Params) (line : String) : String :=
   | op :: _ =>
     if op.startsWith "msg." then C01.run p.maxPayload ws
     else if op.startsWith "conv" then C20.run ws
+    else if op.startsWith "session." then C19.run ws
     else "bad-op"
 
 partial def loop (p : Params) (h : IO.FS.Stream) (out : IO.FS.Stream) : IO Unit := do
